@@ -269,7 +269,9 @@ def block_obligations(blocks_mod, name):
     if key not in _BLOCK_CACHE:
         b = importlib.import_module(blocks_mod).BLOCKS[name]
         f = get_function(*b["function"])
-        if b.get("loop") is None:
+        if b.get("slice_targets"):
+            src, target, line = VB.extract_assignments(f, name, b["params"], b["returns"], b["slice_targets"])
+        elif b.get("loop") is None:
             src, target, line = VB.extract_method_body(f, name, b["params"], b["returns"])
         else:
             extract = VB.extract_method_loop_body if b.get("method") else VB.extract_loop_body
@@ -374,7 +376,11 @@ def add_block(run, blocks_mod, name):
     except (V.Unsupported, LookupError) as ex:
         run.add("%s::extractable" % name, "post", _block_not_extractable, name, str(ex))
         return
-    if b.get("loop") is None:
+    if b.get("slice_targets"):
+        run.under_contract(f, qualname="%s.%s [slice %s]" % (b["function"][0], b["function"][1], name),
+                           dropped="everything but the top-level assignments to %s (program slice; what they read from the rest of the function enters as parameters); "
+                                   "unconstrained values for: %s; float dtype of the number table (mathematical integers)" % (sorted(b["slice_targets"]), opaque))
+    elif b.get("loop") is None:
         run.under_contract(f, qualname="%s.%s [whole method as function %s]" % (b["function"][0], b["function"][1], name),
                            dropped="`self.x` read as parameter / local `x`; docstring; expressions outside the V-engine subset evaluate to unconstrained values: %s; "
                                    "mathematical integers (no uint32 wrap-around)" % (opaque,))
